@@ -52,20 +52,73 @@ impl Path {
 pub fn remove_prefix(path: &Path, _prefix: &Path) -> Path { *path }
 #[derive(Clone, Copy)]
 pub struct PathSet { pub items: [Path; 2], pub n: u8 }
-impl PathSet { pub fn contains(&self, p: &Path) -> bool { (self.n >= 1 && self.items[0] == *p) || (self.n >= 2 && self.items[1] == *p) } }
+impl PathSet { pub fn contains(&self, p: &Path) -> bool { (self.n >= 1 && self.items[0] == *p) || (self.n >= 2 && self.items[1] == *p) }
+    pub fn insert(&mut self, p: Path) -> bool { if self.contains(&p) { return false; } assert!(self.n < 2, "shim: set capacity"); self.items[self.n as usize] = p; self.n += 1; true } }
 #[derive(Clone, Copy)]
 pub struct StrSet { pub items: [u8; 2], pub n: u8 }
-impl StrSet { pub fn contains(&self, s: &str) -> bool { (self.n >= 1 && UUIDS[(self.items[0] & 3) as usize] == s) || (self.n >= 2 && UUIDS[(self.items[1] & 3) as usize] == s) } }
+impl StrSet { pub fn contains_key(&self, k: u8) -> bool { (self.n >= 1 && self.items[0] & 3 == k & 3) || (self.n >= 2 && self.items[1] & 3 == k & 3) }
+    pub fn insert(&mut self, u: UuidStr) -> bool { if self.contains_key(u.0) { return false; } assert!(self.n < 2, "shim: set capacity"); self.items[self.n as usize] = u.0 & 3; self.n += 1; true }
+    pub fn contains(&self, s: &str) -> bool { (self.n >= 1 && UUIDS[(self.items[0] & 3) as usize] == s) || (self.n >= 2 && UUIDS[(self.items[1] & 3) as usize] == s) } }
 pub struct ReferencedFiles { pub data_paths: PathSet, pub delete_paths: PathSet, pub tx_paths: PathSet, pub index_uuids: StrSet }
 pub struct CleanupInspection { pub referenced_files: ReferencedFiles, pub verified_files: ReferencedFiles }
+/// a file / directory name component (the key of the abstract path it leads to)
+#[derive(Clone, Copy, PartialEq, Eq, Debug)]
+pub struct Name(pub u8);
+impl Name { pub fn as_str(&self) -> Name { *self } }
+/// a directory under the dataset root: `child(name)` is the file of that directory's own kind with that key
+#[derive(Clone, Copy, PartialEq, Eq, Debug)]
+pub struct DirPath(pub Dir);
+impl DirPath {
+    pub fn child(&self, n: Name) -> Path {
+        match self.0 { Dir::Data => Path { dir: Dir::Data, ext: Ext::Lance, key: n.0 & 3 },
+                       Dir::Transactions => Path { dir: Dir::Transactions, ext: Ext::Txn, key: n.0 & 3 },
+                       _ => panic!("shim: child() of an unmodelled directory") }
+    }
+}
+impl Path {
+    /// only the literal the text uses
+    pub fn parse(lit: &str) -> Result<DirPath> { if lit == "_transactions" { Ok(DirPath(Dir::Transactions)) } else { panic!("shim: unknown path literal") } }
+}
+#[derive(Clone, Copy, PartialEq, Eq, Debug)]
+pub enum DeletionFileType { Array, Bitmap }
+#[derive(Clone, Copy, PartialEq, Eq, Debug)]
+pub struct DeletionFile { pub file_type: DeletionFileType, pub key: u8 }
+/// lance_table::io::deletion::deletion_file_path: `_deletions/<frag>-<read_version>-<id>.<arrow|bin>`
+pub fn deletion_file_path(_base: &Path, _fragment_id: u64, d: &DeletionFile) -> Path {
+    Path { dir: Dir::Deletions, ext: match d.file_type { DeletionFileType::Array => Ext::Arrow, DeletionFileType::Bitmap => Ext::Bin }, key: d.key & 3 }
+}
+#[derive(Clone, Copy, Debug)]
+pub struct DataFile { pub path: Name }
+#[derive(Clone, Copy, Debug)]
+pub struct FileList { pub items: [DataFile; 2], pub n: usize }
+impl FileList { pub fn iter(&self) -> std::slice::Iter<'_, DataFile> { self.items[..self.n].iter() } }
+#[derive(Clone, Copy, Debug)]
+pub struct Fragment { pub id: u64, pub files: FileList, pub deletion_file: Option<DeletionFile> }
+#[derive(Clone, Copy, Debug)]
+pub struct FragList { pub items: [Fragment; 1], pub n: usize }
+impl FragList { pub fn iter(&self) -> std::slice::Iter<'_, Fragment> { self.items[..self.n].iter() } }
+#[derive(Clone, Copy, PartialEq, Eq, Debug)]
+pub struct UuidStr(pub u8);
+#[derive(Clone, Copy, PartialEq, Eq, Debug)]
+pub struct Uuid(pub u8);
+impl Uuid { pub fn to_string(&self) -> UuidStr { UuidStr(self.0 & 3) } }
+#[derive(Clone, Copy, Debug)]
+pub struct IndexMetadata { pub uuid: Uuid }
+/// stands for std::vec::Vec in `indexes: &Vec<IndexMetadata>` (array-backed: symbolic-length heap Vecs are expensive for CBMC)
+pub struct Vec<T> { pub items: [T; 2], pub n: usize }
+impl<'a, T> IntoIterator for &'a Vec<T> { type Item = &'a T; type IntoIter = std::slice::Iter<'a, T>; fn into_iter(self) -> Self::IntoIter { self.items[..self.n].iter() } }
+pub struct MutexGuard<'a, T>(pub &'a mut T);
+impl<'a, T> std::ops::Deref for MutexGuard<'a, T> { type Target = T; fn deref(&self) -> &T { self.0 } }
+impl<'a, T> std::ops::DerefMut for MutexGuard<'a, T> { fn deref_mut(&mut self) -> &mut T { self.0 } }
 pub struct DatasetShim { pub base: Path }
-pub struct CleanupTask<'a> { pub dataset: &'a DatasetShim }
+impl DatasetShim { pub fn data_dir(&self) -> DirPath { DirPath(Dir::Data) } }
+pub struct CleanupTask<'a> { pub dataset: &'a DatasetShim, pub policy: CleanupPolicy }
 
 // chrono::DateTime<Utc> is only compared: an ordered integer stands for it
 pub type DateTime<T> = (i64, std::marker::PhantomData<T>);
 #[derive(Clone, Copy, PartialEq, Eq, PartialOrd, Ord, Debug)]
 pub struct Utc;
-pub struct Manifest { pub version: u64, pub ts: i64 }
+pub struct Manifest { pub version: u64, pub ts: i64, pub fragments: FragList, pub transaction_file: Option<Name> }
 impl Manifest { pub fn timestamp(&self) -> DateTime<Utc> { (self.ts, std::marker::PhantomData) } }
 pub struct CleanupPolicy {
     pub before_timestamp: Option<DateTime<Utc>>,
@@ -75,6 +128,7 @@ pub struct CleanupPolicy {
 }
 
 include!("gen/cleanup.rs");
+include!("gen/working_set.rs");
 
 #[cfg(kani)]
 mod proofs {
@@ -86,6 +140,10 @@ mod proofs {
     fn any_sset() -> StrSet { StrSet { items: [kani::any::<u8>() & 3, kani::any::<u8>() & 3], n: kani::any::<u8>() % 3 } }
     fn any_ref() -> ReferencedFiles { ReferencedFiles { data_paths: any_pset(), delete_paths: any_pset(), tx_paths: any_pset(), index_uuids: any_sset() } }
 
+    fn no_policy() -> CleanupPolicy { CleanupPolicy { before_timestamp: None, before_version: None, delete_unverified: false, error_if_tagged_old_versions: true } }
+    fn no_frags() -> FragList { FragList { items: [Fragment { id: 0, files: FileList { items: [DataFile { path: Name(0) }; 2], n: 0 }, deletion_file: None }], n: 0 } }
+    fn empty_ref() -> ReferencedFiles { let e = PathSet { items: [Path { dir: Dir::Other, ext: Ext::None, key: 0 }; 2], n: 0 };
+        ReferencedFiles { data_paths: e, delete_paths: e, tx_paths: e, index_uuids: StrSet { items: [0; 2], n: 0 } } }
     fn uuid_of(p: &Path) -> &'static str { UUIDS[(p.key & 3) as usize] }
     /// "referenced by a retained version": p is a data / deletion / transaction file or an index directory entry
     /// that one of the retained manifests names
@@ -109,7 +167,7 @@ mod proofs {
     #[kani::unwind(20)]
     fn never_delete_referenced() {
         let ds = DatasetShim { base: any_path() };
-        let task = CleanupTask { dataset: &ds };
+        let task = CleanupTask { dataset: &ds, policy: no_policy() };
         let insp = CleanupInspection { referenced_files: any_ref(), verified_files: any_ref() };
         let p = any_path();
         let mip: bool = kani::any();
@@ -133,7 +191,7 @@ mod proofs {
     #[kani::unwind(20)]
     fn in_progress_only_verified() {
         let ds = DatasetShim { base: any_path() };
-        let task = CleanupTask { dataset: &ds };
+        let task = CleanupTask { dataset: &ds, policy: no_policy() };
         let insp = CleanupInspection { referenced_files: any_ref(), verified_files: any_ref() };
         let p = any_path();
         let r = task.path_if_not_referenced(p, true, &insp);
@@ -151,7 +209,7 @@ mod proofs {
     #[kani::unwind(20)]
     fn only_known_kinds_in_their_directory() {
         let ds = DatasetShim { base: any_path() };
-        let task = CleanupTask { dataset: &ds };
+        let task = CleanupTask { dataset: &ds, policy: no_policy() };
         let insp = CleanupInspection { referenced_files: any_ref(), verified_files: any_ref() };
         let p = any_path();
         let mip: bool = kani::any();
@@ -175,7 +233,7 @@ mod proofs {
     #[kani::unwind(20)]
     fn unreferenced_old_files_are_collected() {
         let ds = DatasetShim { base: any_path() };
-        let task = CleanupTask { dataset: &ds };
+        let task = CleanupTask { dataset: &ds, policy: no_policy() };
         let insp = CleanupInspection { referenced_files: any_ref(), verified_files: any_ref() };
         let p = any_path();
         let r = task.path_if_not_referenced(p, false, &insp);
@@ -197,11 +255,31 @@ mod proofs {
             before_version: if kani::any() { Some(kani::any::<u64>()) } else { None },
             delete_unverified: kani::any(), error_if_tagged_old_versions: kani::any(),
         };
-        let m = Manifest { version: kani::any(), ts: kani::any() };
+        let m = Manifest { version: kani::any(), ts: kani::any(), fragments: no_frags(), transaction_file: None };
         let r = pol.should_clean(&m);
         let want = pol.before_timestamp.map_or(true, |t| m.ts < t.0) && pol.before_version.map_or(true, |v| m.version < v);
         assert!(r == want, "policy selects a version that is not strictly older than its limits (or spares one that is)");
         kani::cover!(r);
         kani::cover!(!r);
+    }
+
+    /// C08: "the latest version, tagged versions and every version the policy keeps remain": such a version is always in
+    /// the working set (its files are recorded as referenced and its manifest is not removed).
+    #[kani::proof]
+    fn retained_versions_are_in_the_working_set() {
+        let ds = DatasetShim { base: any_path() };
+        let pol = CleanupPolicy {
+            before_timestamp: if kani::any() { Some((kani::any::<i64>(), std::marker::PhantomData)) } else { None },
+            before_version: if kani::any() { Some(kani::any::<u64>()) } else { None },
+            delete_unverified: kani::any(), error_if_tagged_old_versions: kani::any() };
+        let keeps = |m: &Manifest| !(pol.before_timestamp.map_or(true, |t| m.ts < t.0) && pol.before_version.map_or(true, |v| m.version < v));
+        let m = Manifest { version: kani::any(), ts: kani::any(), fragments: no_frags(), transaction_file: None };
+        let policy_keeps = keeps(&m);
+        let task = CleanupTask { dataset: &ds, policy: pol };
+        let dataset_version: u64 = kani::any();
+        let tagged: bool = kani::any();
+        let in_ws = task.in_working_set(&m, dataset_version, tagged);
+        assert!(in_ws == (m.version >= dataset_version || tagged || policy_keeps), "retention decision differs from 'latest or tagged or kept by the policy'");
+        kani::cover!(in_ws); kani::cover!(!in_ws);
     }
 }
